@@ -199,7 +199,8 @@ func runC15(seed int64, tier string, sc *Script) map[string]any {
 			var refs []ref
 			for i := 0; i < nItems; i++ {
 				// (artifact types with characters that need query escaping: '+' and '&')
-				at := []string{"application/vnd.at0", "application/vnd.at1+json&x"}[i%2]
+				// and one that differs from the filtered type by letter case only
+				at := []string{"application/vnd.at0", "application/vnd.at1+json&x", "application/vnd.AT1+json&x"}[i%3]
 				b := []byte(fmt.Sprintf(`{"schemaVersion":2,"mediaType":%q,"artifactType":%q,"config":{"mediaType":"application/vnd.oci.empty.v1+json","digest":"sha256:44136fa355b3678a1146ad16f7e8649e94fb4fc21fe77e8310c060f61caaff8a","size":2},"layers":[],"subject":{"mediaType":%q,"digest":%q,"size":%d},"annotations":{"i":"x%02d"}}`,
 					ocispec.MediaTypeImageManifest, at, sd.MediaType, sd.Digest, sd.Size, i))
 				d := content.NewDescriptorFromBytes(ocispec.MediaTypeImageManifest, b)
